@@ -146,5 +146,7 @@ var SelftestReverts = map[string][]string{
 	"C10": {"revert_F4.diff"},
 	"C33": {"revert_F5.diff"},
 	"C15": {"revert_F10.diff"},
+	"C35": {"revert_F11.diff"},
+	"C01": {"revert_F12.diff"},
 	"C56": {"revert_F6.diff", "revert_F7.diff", "revert_F8.diff", "revert_F9.diff"},
 }
